@@ -576,6 +576,73 @@ func c14Workflows(t *testing.T, r *vReport, idx *int64, root string) {
 			}
 		}
 	}
+	// derivation agreement: the interface taken from the callee's file and from its AST must lead
+	// to the same diagnostics of the caller for every spelling of the attribute values that the
+	// workflow parser accepts (callee alone lints clean)
+	reqSpell := []string{"", "true", "false", "${{ true }}", "${{ false }}", "${{ github.event_name == 'push' }}"}
+	defSpell := []string{"", "x", "''", "1", "true", "${{ github.sha }}", "null"}
+	for _, ty := range []string{"string", "number", "boolean"} {
+		for _, rq := range reqSpell {
+			for _, df := range defSpell {
+				for _, srq := range []string{"", "true", "${{ true }}"} {
+					*idx++
+					if !r.Mine(*idx) {
+						continue
+					}
+					var c strings.Builder
+					c.WriteString("on:\n  workflow_call:\n    inputs:\n      din:\n        type: " + ty + "\n")
+					if rq != "" {
+						c.WriteString("        required: " + rq + "\n")
+					}
+					if df != "" {
+						c.WriteString("        default: " + df + "\n")
+					}
+					c.WriteString("    secrets:\n      dsec:\n")
+					if srq != "" {
+						c.WriteString("        required: " + srq + "\n")
+					} else {
+						c.WriteString("        description: d\n")
+					}
+					c.WriteString("jobs:\n  j:\n    runs-on: ubuntu-latest\n    steps:\n      - run: echo\n")
+					callee := c.String()
+					if res := vLint(callee, nil); len(res.Errs) > 0 || res.Err != nil || res.Panic != "" {
+						r.Class("derivation: callee not clean (skipped)", false)
+						continue
+					}
+					for _, site := range []string{"", "    with:\n      din: " + map[string]string{"string": "abc", "number": "42", "boolean": "true"}[ty] + "\n    secrets:\n      dsec: x\n"} {
+						caller := "on: push\njobs:\n  c:\n    uses: ./.github/workflows/callee.yml\n" + site
+						fe, ae, err := lintBoth(dir, callee, caller)
+						r.Evaluations++
+						r.Transitions += 2
+						r.Validated += 2
+						desc := fmt.Sprintf("callee input type=%s required=%q default=%q secret required=%q, call site with inputs=%v", ty, rq, df, srq, site != "")
+						rp := map[string]any{"desc": desc, "src": caller, "callee": callee}
+						if err != nil {
+							r.Violation("failure", fmt.Sprintf("%s: %v", desc, err), rp)
+							continue
+						}
+						sk := func(errs []*Error) []string {
+							var out []string
+							for _, e := range errs {
+								out = append(out, fmt.Sprintf("%d:%d %s", e.Line, e.Column, vTrunc(e.Message, 120)))
+							}
+							sort.Strings(out)
+							return out
+						}
+						f, a := sk(fe), sk(ae)
+						if strings.Join(f, "\n") != strings.Join(a, "\n") {
+							key := "derivations-disagree"
+							if strings.Contains(strings.Join(f, " "), "error while parsing reusable workflow") {
+								key += ":file-route-cannot-parse"
+							}
+							r.Violation(key, fmt.Sprintf("%s: the caller's diagnostics depend on whether the callee's interface comes from its file or from its AST\n from file: %v\n from AST:  %v\ncallee:\n%s", desc, f, a, callee), rp)
+						}
+						r.Class("derivation agreement", len(f) > 0)
+					}
+				}
+			}
+		}
+	}
 	// typed values
 	values := []string{"abc", "42", "true", "null", "${{ 1 }}", "${{ 'a' }}", "${{ true }}", "${{ github.sha }}", "${{ fromJSON('1') }}", "${{ null }}", "pre ${{ 1 }} post", "${{ github.event.x }}"}
 	for _, ty := range []string{"string", "number", "boolean"} {
@@ -618,7 +685,7 @@ func upperAll(ss []string) []string {
 func TestVerifC14(t *testing.T) {
 	r := vNewReport("C14")
 	defer r.Write(t)
-	r.Extra["rule"] = "every spec of the bundled popular-actions table x call sites {none, required, all, required minus each, one extra, re-cased} with references to every declared and one undeclared output; 343 local action interfaces (3 inputs over absent/optional/required/required+default/optional+default/required+empty default/required+falsy default) x 0-2 outputs x every subset of declared inputs + extra + re-cased; 256 reusable-workflow input interfaces (2 inputs over absent | type x required x default incl. empty and falsy defaults) x 3 secret sets x 0-1 outputs x 6+ call sites (none, required, all re-cased, extra input, extra secret, inherit, minus each), interface derived from the file and from the AST (callee linted first in the same run); 3 types x 12 typed values. oracle = set arithmetic on the declared interface. class = (family, call site, expected report counts); non-trivial = something must be reported"
+	r.Extra["rule"] = "every spec of the bundled popular-actions table x call sites {none, required, all, required minus each, one extra, re-cased} with references to every declared and one undeclared output; 343 local action interfaces (3 inputs over absent/optional/required/required+default/optional+default/required+empty default/required+falsy default) x 0-2 outputs x every subset of declared inputs + extra + re-cased; 256 reusable-workflow input interfaces (2 inputs over absent | type x required x default incl. empty and falsy defaults) x 3 secret sets x 0-1 outputs x 6+ call sites (none, required, all re-cased, extra input, extra secret, inherit, minus each), interface derived from the file and from the AST (callee linted first in the same run); 3 types x 12 typed values; derivation agreement over 3 types x 6 spellings of required x 7 of default x 3 of a secret's required (literal and expression values) x 2 call sites. oracle = set arithmetic on the declared interface. class = (family, call site, expected report counts); non-trivial = something must be reported"
 	r.Extra["assumptions"] = []string{"for bundled actions the table itself is the declaration (its content is not frozen)", "assignability per docs/checks.md: string <- string|number, number <- number, boolean <- anything, anything <- any"}
 	root := vTempDir(t, "c14-")
 	if raw := vReplayInput(); raw != nil {
